@@ -143,6 +143,18 @@ func fixedScenarios(rng *wh.Rng, thorough bool) []Scenario {
 			{Caller: "one", End: "cancel", Outcomes: []string{"ctxerr", "ctxerr", "ctxok"}},
 		}})
 	}
+	// two command types with their own handlers running concurrently, replies without error overlapping between "operation id
+	// stamped" and "published" (rendezvous in ModifyNotificationMessage): each requester still gets its own result
+	for _, ack := range []bool{false, true} {
+		for _, shared := range []bool{true, false} {
+			reqs := []ReqSpec{}
+			for j := 0; j < 6; j++ {
+				reqs = append(reqs, ReqSpec{Caller: []string{"drain", "drain", "reply"}[j%3], End: "cancel", Outcomes: []string{"ok"}})
+			}
+			reqs = append(reqs, ReqSpec{Caller: "drain", End: "parent", Outcomes: []string{"err", "ok"}}, ReqSpec{Caller: "drain", End: "cancel", Outcomes: []string{"ok"}})
+			out = append(out, Scenario{AckErrs: ack, Shared: shared, TwoHandlers: true, Seed: rng.Next(), Reqs: reqs})
+		}
+	}
 	// timeouts
 	for _, ack := range []bool{false, true} {
 		for _, shared := range []bool{true, false} {
@@ -243,6 +255,7 @@ func randomScenario(rng *wh.Rng, n int, ack, shared *bool) Scenario {
 			}
 		}
 	}
+	sc.TwoHandlers = rng.Intn(4) == 0
 	sc.BlockReplies = rng.Intn(8) == 0
 	sc.CloseSub = rng.Intn(8) == 0 && !small && !sc.BlockReplies
 	switch rng.Intn(10) {
@@ -313,8 +326,9 @@ func cmdCases(rng *wh.Rng, extra int) []cmdCase {
 							c.res = "bad" + str()
 						}
 						if hasErr {
-							e := "handler failed " + str()
+							e := "handler failed: " + str()
 							c.err = &e
+							c.ekind = errKinds[rng.Intn(len(errKinds))]
 						}
 						out = append(out, c)
 					}
@@ -330,7 +344,11 @@ func cmdCases(rng *wh.Rng, extra int) []cmdCase {
 		}
 		if rng.Bool() {
 			e := str() // includes the empty error text
+			if rng.Bool() {
+				e = str() + ": " + e
+			}
 			c.err = &e
+			c.ekind = errKinds[rng.Intn(len(errKinds))]
 		}
 		out = append(out, c)
 	}
